@@ -6,6 +6,7 @@ import YadismModel.Model.Proto
 import YadismModel.Model.Couplings
 import YadismModel.Model.Weights
 import YadismModel.Model.Combiner
+import YadismModel.Model.Compat
 
 open Yadism Yadism.Proto
 
@@ -63,7 +64,7 @@ def showPMap (w : PMap) : String :=
 def showKernel (k : Kernel) : String :=
   s!"{k.chan.family}.{k.chan.cls}.{k.chan.nfArg}.{k.chan.ihq} {showPMap k.partons}"
 
-def rdEsf : RdM EsfCfg := do
+def rdEsf : RdM (Env × Flavor × Parts) := do
   let kind ← rdKind
   let flavor ← rdFlavor
   let cc ← rdCC
@@ -78,7 +79,7 @@ def rdEsf : RdM EsfCfg := do
   let ptoEvol ← nat
   let z ← rat
   let a ← rat
-  pure { kind, flavor, cc, q2, nf, zmc, zmb, zmt, ffn0, parts, pto, ptoEvol, z, a }
+  pure ({ kind, cc, q2, nf, zmc, zmb, zmt, ffn0, pto, ptoEvol, z, a }, flavor, parts)
 
 def handle (op : String) : RdM String := do
   match op with
@@ -110,8 +111,14 @@ def handle (op : String) : RdM String := do
         | _ => failure
       pure (" | ".intercalate [showPMap w.ns, showPMap w.g, showPMap w.s, showPMap w.v])
   | "combiner" => do
-      let e ← rdEsf
-      pure (" ; ".intercalate ((collectElems e).map showKernel))
+      let (e, fl, pa) ← rdEsf
+      pure (" ; ".intercalate ((collectElems e fl pa).map showKernel))
+  | "target" => do   -- update_target table
+      let t ← tok
+      let name := if t == "_" then "" else t
+      match namedTarget name, namedTargetId name with
+      | some (z, a), some id => pure s!"{showRat z} {showRat a} {id}"
+      | _, _ => pure "rejected"
   | _ => failure
 
 def step (line : String) : String :=
